@@ -38,3 +38,5 @@ package fixedtree
 //@   loop 0 invariant 0 <= i && len(nodes) >= 3 && len(nodes) < 4611686018427387910
 //@   loop 0 invariant i >= 1 ==> exists(j, 2 <= j && j <= 3 && j < len(nodes) && nodes[j] != nil && nodes[j].Key() == key && !nodes[j].IsEmpty() && snd(nodeHash(nodes[j], nodes[0], nodes[1])) == nil && nodes[j].Hash().Equal(fst(nodeHash(nodes[j], nodes[0], nodes[1]))))
 //@   loop 1 invariant !passed
+//@   ensures [local-chain] r0 == nil ==> forall(l, 0 <= l && l < (len(nodes)-1)/2 ==> exists(j, 2*l+2 <= j && j <= 2*l+3 && j < len(nodes) && nodes[j] != nil && !nodes[j].IsEmpty() && snd(nodeHash(nodes[j], nodes[2*l], nodes[2*l+1])) == nil && nodes[j].Hash().Equal(fst(nodeHash(nodes[j], nodes[2*l], nodes[2*l+1])))))
+//@   loop 0 invariant forall(l, 0 <= l && l < i ==> exists(j, 2*l+2 <= j && j <= 2*l+3 && j < len(nodes) && nodes[j] != nil && !nodes[j].IsEmpty() && snd(nodeHash(nodes[j], nodes[2*l], nodes[2*l+1])) == nil && nodes[j].Hash().Equal(fst(nodeHash(nodes[j], nodes[2*l], nodes[2*l+1])))))
